@@ -4,8 +4,8 @@
    system state; the statement over whole histories (C01_full_statement) is
    not proved in Coq -- it is decided against the implementation on every run
    by the correspondence harness plus the from-scratch oracle (DESIGN.md C01). *)
-From Coq Require Import ZArith.
-From Redo Require Import Base.Bytes Build.Model Build.LocalProofs.
+From Coq Require Import ZArith List.
+From Redo Require Import Base.Bytes Build.Model Build.LocalProofs Build.FailProofs.
 
 Theorem C01_never_built_is_dirty : forall fuel runid w c f r mx seen,
   existsb (Nat.eqb f) seen = false ->
@@ -43,6 +43,30 @@ Check C01_newer_dep_is_dirty : forall fuel runid w c f r mx seen chg,
   r_changed r = Some chg -> (mx < chg)%Z ->
   is_dirty (S fuel) runid w c f r mx seen = Ret (VDirty, w, c, []).
 Print Assumptions C01_newer_dep_is_dirty.
+
+(* over the whole walk: a recorded Modified dependency that failed, was never
+   built, or changed in a later run than the one in which the target was last
+   built or verified makes the target not clean -- wherever it stands in the
+   dependency list and whatever the other rows say (every database, fuel,
+   callback; [r] is the copy of the target's row that the check judges) *)
+Theorem C01_moved_on_dep_not_clean : forall fuel runid w c f r mx seen v w' c' evs chg,
+  is_dirty fuel runid w c f r mx seen = Ret (v, w', c', evs) ->
+  chk_is_checked c runid r f = false ->
+  r_changed r = Some chg ->
+  (exists d, In d (deps_of (dbs w) r f) /\ d_mode d = DModified /\
+     moved_on (Z.max chg match r_checked r with Some k => k | None => 0%Z end) (load runid (dbs w) (d_source d))) ->
+  v <> VClean.
+Proof. exact moved_on_dep_not_clean. Qed.
+Check C01_moved_on_dep_not_clean : forall fuel runid w c f r mx seen v w' c' evs chg,
+  is_dirty fuel runid w c f r mx seen = Ret (v, w', c', evs) ->
+  chk_is_checked c runid r f = false ->
+  r_changed r = Some chg ->
+  (exists d, In d (deps_of (dbs w) r f) /\ d_mode d = DModified /\
+     let rs := load runid (dbs w) (d_source d) in
+     let sm := Z.max chg match r_checked r with Some k => k | None => 0%Z end in
+     (r_failed rs <> None \/ r_changed rs = None \/ exists cg, r_changed rs = Some cg /\ (sm < cg)%Z)) ->
+  v <> VClean.
+Print Assumptions C01_moved_on_dep_not_clean.
 
 (* The full statement, in terms of the model (NOT proved here). *)
 Definition C01_full_statement : Prop :=
